@@ -196,7 +196,13 @@ o P1 240117#KY todo in part @c1
 
 x 240118#L0 done in the second headless h2
 """,
-    # a page with a single note whose tags and links were first seen in non-alphabetical order
+    # a page that is indexed early and introduces #zeta, [[zz]] and @zc ...
+    "aaa_first.zo": """# AAA FIRST
+
+- 240321#S8 introduces late letters #zeta [[zz]] @zc
+""",
+    # ... and a page with a single note that carries them next to NEW names that sort before
+    # them (their rows are created later)
     "solo.zo": """# SOLO
 
 - 240320#S9 lonely note #zeta #alpha #mid [[zz]] [[aa]] @zc @ac
